@@ -48,13 +48,16 @@ ALPHABET = {
     # slice patterns: one binding (takes its name) / two bindings (generated name)
     "[a,..]": ("arr", "destr", 1, None),
     "[a,b]": ("arr", "destr", 0, None),
+    # bindings spelled with two leading underscores are bindings like any other (round 19): one keeps its name, one of two does not lend it
+    "N(__u)": ("N", "destr", 0, "__mm"),
+    "N2(__u,b)": ("N2", "destr", 1, ("__pad", "wb")),
     "N(r#kw)": ("N", "destr", 0, "r#type"),
     "&r#id": ("refi", "destr", 0, "r#v_raw"),
 }
 IMPL_ALPHABET_EXTRA = {"=__impl": ("i32", "plain", 0, "__impl"), "N(=__impl)": ("N", "destr", 0, "__impl"), "=__impl_": ("i32", "plain", 0, "__impl_")}
 # symbols added after round 8: enumerated exhaustively up to length 2 only (plus samples), to keep the quick tier quick
-LATE_SYMBOLS = {"N(é)", "N(__)", "N2(a,λ)", "x@(_,_)", "x@[..]", "[a,..]", "[a,b]"}
-SPECIAL_ONCE = {"N(é)", "N(__)", "N(_u)", "N(=fn_)", "mut =fn", "ref =fn", "N(r#kw)", "&r#id", "r#=arg0", "=fn", "=fn_", "=fn__", "=arg0", "=arg1", "=_arg1", "N(=fn)", "r#=fn"}
+LATE_SYMBOLS = {"N(__u)", "N2(__u,b)", "N(é)", "N(__)", "N2(a,λ)", "x@(_,_)", "x@[..]", "[a,..]", "[a,b]"}
+SPECIAL_ONCE = {"N(__u)", "N2(__u,b)", "N(é)", "N(__)", "N(_u)", "N(=fn_)", "mut =fn", "ref =fn", "N(r#kw)", "&r#id", "r#=arg0", "=fn", "=fn_", "=fn__", "=arg0", "=arg1", "=_arg1", "N(=fn)", "r#=fn"}
 
 
 def valid(lst):
@@ -341,7 +344,7 @@ def run(tier, seed):
     rep.extra["lists_with_raw_fn_name"] = len(named)
     # the function itself named like a name the macro would generate (`arg0`, `arg1`, `_arg1`), for the short lists that contain a
     # pattern without a name of its own
-    UNNAMED = {"_", "(a,b)", "N2(a,_)", "N2(a,λ)", "[a,b]"}
+    UNNAMED = {"_", "(a,b)", "N2(a,_)", "N2(a,λ)", "N2(__u,b)", "[a,b]"}
     gen_named = [l for l in lists if 1 <= len(l) <= 2 and any(s_ in UNNAMED for s_ in l)]
     for gname in ("arg0", "arg1", "_arg1"):
         cases += build_cases(gen_named, "g" + gname.replace("_", "u"), [(False, False, "fn")], fn_name=gname)
